@@ -49,6 +49,11 @@ def main(argv=None):
     res["contract_evaluations"] = dict(instrument.COUNTS)
     with open(a.out, "w") as f:
         json.dump(res, f)
+    d = os.environ.get("VERIF_REACH_DUMP")
+    if d:  # blind-spot map over all checks (tools/coverage_gaps.py); evidence only
+        os.makedirs(d, exist_ok=True)
+        with open(os.path.join(d, f"{a.prop}.{a.tier}.{a.shard}.json"), "w") as f:
+            json.dump(reach.dump_all(), f)
     return 0
 
 
